@@ -45,7 +45,7 @@ PROPS["C08"]["modules"] += ["IclModel.Props.C01Walk"]
 for _p in ("C01", "C02", "C08", "C09"):
     PROPS[_p]["modules"] += ["IclModel.Props.C02WriteLine"]
 # Bundle.Validate translated from bundle.go = the container check of reader and builds
-for _p in ("C09", "C04", "C06"):
+for _p in ("C09", "C04", "C06", "C01"):
     PROPS[_p]["modules"] += ["IclModel.Props.C09Validate"]
 # Reader.parseLine and its handlers translated from reader.go = the step of the reader model
 for _p in ("C04", "C18", "C03", "C05"):
